@@ -798,4 +798,8 @@ Ops_Membership == Ops_Tx \cup {"GetMailboxMessageIDPairs", "GetMailboxRecentCoun
   "UpdateRemoteMessageID", "MarkMessageAsDeletedAndAssignRandomRemoteID", "AddFlagToMessages"}
 Ops_MembershipCore == Ops_Membership \ {"UpdateRemoteMessageID", "MarkMessageAsDeletedAndAssignRandomRemoteID", "AddFlagToMessages",
   "GetMailboxMessageCountWithRemoteID", "GetTotalMessageCount"}
+Ops_MailboxThree == Ops_Mailbox \ {"AddPermFlagsToAllMailboxes", "GetMailboxPermanentFlags", "AddFlagsToAllMailboxes", "GetMailboxFlags",
+  "GetMailboxAttributes", "SetMailboxUIDValidity", "StoreConnectorSettings", "GetConnectorSettings", "AddDeletedSubscription",
+  "RemoveDeletedSubscriptionWithName"}
+Ops_TwoBox == Ops_MembershipCore \ {"ClearRecentFlagInMailboxOnMessage", "ClearRecentFlagsInMailbox", "SetMailboxMessagesDeletedFlag"}
 =============================================================================
